@@ -301,7 +301,28 @@ func init() {
 		}
 		dt := derefType(fn.Signature.Recv().Type())
 		cr := in.load(dp).(*StructV).F[fieldIndex(dt, "CharsetReader")]
-		return in.xmlUnmarshal(in.stringOfBytes(src.Ghost["data"].(*SliceV)), a[1], !isNilValue(cr))
+		content := in.stringOfBytes(src.Ghost["data"].(*SliceV))
+		conv := false
+		if d := in.lookupDoc(content); d != nil && d.OtherEncoding && !isNilValue(cr) {
+			// the decoder hands the declared charset and its input to the installed CharsetReader: the bytes are
+			// decoded unchanged only if that function returns the very reader it was given
+			srcV := dp.Obj.Ghost["src"].(Value)
+			res, ok := in.tryCallValue(cr, []Value{smt.StrLit("ISO-8859-1"), srcV})
+			if !ok {
+				conv = true
+			} else if t, isT := res.(Tuple); isT && len(t) == 2 {
+				if ei, _ := t[1].(*Iface); ei != nil && ei.T != nil {
+					return t[1]
+				}
+				if same := in.valEq(t[0], srcV); !(same.Const && same.K == smt.KBool && same.S == "true") {
+					conv = true
+				}
+			}
+			if conv {
+				in.event("xml.Decoder: CharsetReader substitutes its own reader (content is transcoded)")
+			}
+		}
+		return in.xmlUnmarshalConv(content, a[1], !isNilValue(cr), conv)
 	}
 	models["encoding/xml.Unmarshal"] = func(in *Interp, fn *ssa.Function, a []Value) Value {
 		return in.xmlUnmarshal(in.stringOfBytes(a[0].(*SliceV)), a[1], false)
@@ -335,6 +356,52 @@ func init() {
 // xmlUnmarshal: the model of Unmarshal / Decoder.Decode (charsetReader: a CharsetReader is installed, so a
 // declared non-UTF-8 encoding is not an error; the installed reader is assumed to pass bytes through).
 func (in *Interp) xmlUnmarshal(content *smt.Term, target Value, charsetReader bool) Value {
+	return in.xmlUnmarshalConv(content, target, charsetReader, false)
+}
+
+// tryCallValue runs a function value; an unmodelled / out-of-bound construct inside it is reported as !ok
+// instead of ending the path (the caller then treats the result as unknown).
+func (in *Interp) tryCallValue(fv Value, args []Value) (res Value, ok bool) {
+	defer func() {
+		if r := recover(); r != nil {
+			if pe, isEnd := r.(*pathEnd); isEnd && (pe.Kind == "unmodelled" || pe.Kind == "unwind") {
+				res, ok = nil, false
+				return
+			}
+			panic(r)
+		}
+	}()
+	return in.CallValue(fv, args), true
+}
+
+// charsetConv: text as it comes out of a transcoding CharsetReader (unknown function of the original text).
+// Symbolic strings stand for ASCII text in these scenarios (which every single-byte charset maps to itself);
+// non-ASCII content is the explicit constant part a scenario appends.
+func charsetConv(v *smt.Term) *smt.Term {
+	if !hasNonASCIIConst(v) {
+		return v
+	}
+	return smt.UF("charset_conv", []string{"String"}, &smt.Term{K: smt.KStr}, v)
+}
+
+func hasNonASCIIConst(v *smt.Term) bool {
+	if v.Const {
+		for i := 0; i < len(v.Str); i++ {
+			if v.Str[i] >= 0x80 {
+				return true
+			}
+		}
+		return false
+	}
+	for _, a := range v.Args {
+		if a.K == smt.KStr && hasNonASCIIConst(a) {
+			return true
+		}
+	}
+	return false
+}
+
+func (in *Interp) xmlUnmarshalConv(content *smt.Term, target Value, charsetReader bool, conv bool) Value {
 	ifc, _ := target.(*Iface)
 	in.event("xml.Unmarshal")
 	in.X.noteAssumption("encoding/xml.Unmarshal / Decoder.Decode modelled from the struct tags read from /repo's types at run time (XMLName, attr, a>b>c paths, chardata concatenation, slices append, pointer reuse, last attribute wins, typed attributes may fail); rejects documents declaring a non-UTF-8 encoding unless a CharsetReader is installed")
@@ -356,7 +423,10 @@ func (in *Interp) xmlUnmarshal(content *smt.Term, target Value, charsetReader bo
 	if d.Root == nil || (d.OtherEncoding && !charsetReader) {
 		return in.opaqueError("xml-unmarshal")
 	}
-	um := &xmlm{in: in}
+	um := &xmlm{in: in, conv: conv}
+	if conv {
+		in.X.noteAssumption("a CharsetReader that returns a reader of its own: every decoded text / attribute value with non-ASCII content is an unknown function charset_conv of the document's value (symbolic strings stand for ASCII text, non-ASCII content is the explicit constant a scenario appends)")
+	}
 	if !um.decodeInto(d.Root, tp, pt.Elem(), nil) {
 		return in.opaqueError("xml-unmarshal:" + um.why)
 	}
@@ -420,6 +490,7 @@ func (in *Interp) lookupMethodByName(t types.Type, name string) *ssa.Function {
 
 type xmlm struct {
 	in      *Interp
+	conv    bool // text passes through a transcoding CharsetReader
 	why     string
 	nsStack []map[string]*smt.Term
 }
@@ -570,7 +641,11 @@ func (um *xmlm) decodeInto(p *Ptr, target *Ptr, T types.Type, pre *xElem) bool {
 	if !ok {
 		// element decoded into a plain string: text content
 		if b := basicOf(T); b != nil && b.Info()&types.IsString != 0 {
-			in.store(target, um.textOf(e))
+			tv := um.textOf(e)
+			if um.conv && !tv.Const {
+				tv = charsetConv(tv)
+			}
+			in.store(target, tv)
 			return true
 		}
 		return um.fail("unsupported target type %s", T)
@@ -634,7 +709,11 @@ func (um *xmlm) decodeInto(p *Ptr, target *Ptr, T types.Type, pre *xElem) bool {
 	}
 	for _, f := range fields {
 		if f.Kind == "chardata" {
-			in.store(target.extend(f.Index), smt.StrConcat(text...))
+			tv := smt.StrConcat(text...)
+			if um.conv && !tv.Const {
+				tv = charsetConv(tv)
+			}
+			in.store(target.extend(f.Index), tv)
 		}
 		if f.Kind == "innerxml" {
 			// opaque bytes
@@ -741,6 +820,9 @@ func (um *xmlm) assignElement(ce *xElem, fp *Ptr, ft types.Type) bool {
 // setScalar stores a string value into a field of string / int / bool / time.Time (possibly pointer) type.
 func (um *xmlm) setScalar(fp *Ptr, ft types.Type, v *smt.Term) bool {
 	in := um.in
+	if um.conv && !v.Const {
+		v = charsetConv(v)
+	}
 	if isTimeType(ft) {
 		if !in.Branch(ParseOK("2006-01-02T15:04:05Z07:00", v)) {
 			return um.fail("bad time value")
